@@ -252,6 +252,104 @@ def anyQ (L : Loc) : Query → Bool
   | .union ws s us => L.q (.union ws s us) || anyW L ws || anyS L s || anyUs L us
 end
 
+/-- a predicate that flags nothing … -/
+structure Loc.Empty (L : Loc) : Prop where
+  e : ∀ x, L.e x = false
+  s : ∀ x, L.s x = false
+  j : ∀ x, L.j x = false
+  g : ∀ x, L.g x = false
+  q : ∀ x, L.q x = false
+
+mutual
+/-- … finds nothing -/
+theorem none_E {L : Loc} (hL : L.Empty) : ∀ e, anyE L e = false
+  | .column _ _ | .literal _ | .wildcard _ | .mybatis _ => by simp [anyE, hL.e]
+  | .func _ _ ps | .agg _ ps _ | .subValue ps => by simp [anyE, hL.e, none_Es hL ps]
+  | .cast e _ _ _ | .exists_ e | .unary _ e | .not_ e => by simp [anyE, hL.e, none_E hL e]
+  | .extract l r | .index l r | .compute l _ r | .kw _ _ l r | .compare _ l r | .and_ l r | .xor l r | .or_ l r => by
+    simp [anyE, hL.e, none_E hL l, none_E hL r]
+  | .between _ b f t => by simp [anyE, hL.e, none_E hL b, none_E hL f, none_E hL t]
+  | .window fn part ord _ => by simp [anyE, hL.e, none_E hL fn, none_Es hL part, none_Os hL ord]
+  | .caseCond cs els => by simp [anyE, hL.e, none_Arms hL cs, none_OE hL els]
+  | .caseVal v cs els => by simp [anyE, hL.e, none_E hL v, none_Arms hL cs, none_OE hL els]
+  | .subQuery q => by simp [anyE, hL.e, none_Q hL q]
+theorem none_Es {L : Loc} (hL : L.Empty) : ∀ es, anyEs L es = false
+  | [] => rfl
+  | e :: r => by simp [anyEs, none_E hL e, none_Es hL r]
+theorem none_OE {L : Loc} (hL : L.Empty) : ∀ e, anyOE L e = false
+  | none => rfl
+  | some e => by simp [anyOE, none_E hL e]
+theorem none_Arms {L : Loc} (hL : L.Empty) : ∀ cs, anyArms L cs = false
+  | [] => rfl
+  | (w, t) :: r => by simp [anyArms, none_E hL w, none_E hL t, none_Arms hL r]
+theorem none_O {L : Loc} (hL : L.Empty) : ∀ o, anyO L o = false
+  | .mk e _ _ _ => by simp [anyO, none_E hL e]
+theorem none_Os {L : Loc} (hL : L.Empty) : ∀ os, anyOs L os = false
+  | [] => rfl
+  | o :: r => by simp [anyOs, none_O hL o, none_Os hL r]
+theorem none_OOs {L : Loc} (hL : L.Empty) : ∀ os, anyOOs L os = false
+  | none => rfl
+  | some l => by simp [anyOOs, none_Os hL l]
+theorem none_OEs {L : Loc} (hL : L.Empty) : ∀ es, anyOEs L es = false
+  | none => rfl
+  | some l => by simp [anyOEs, none_Es hL l]
+theorem none_TR {L : Loc} (hL : L.Empty) : ∀ t, anyTR L t = false
+  | .table _ _ => rfl
+  | .sub q => by simp [anyTR, none_Q hL q]
+theorem none_F {L : Loc} (hL : L.Empty) : ∀ t, anyF L t = false
+  | .mk t _ => by simp [anyF, none_TR hL t]
+theorem none_Fs {L : Loc} (hL : L.Empty) : ∀ ts, anyFs L ts = false
+  | [] => rfl
+  | t :: r => by simp [anyFs, none_F hL t, none_Fs hL r]
+theorem none_OFs {L : Loc} (hL : L.Empty) : ∀ ts, anyOFs L ts = false
+  | none => rfl
+  | some l => by simp [anyOFs, none_Fs hL l]
+theorem none_Rule {L : Loc} (hL : L.Empty) : ∀ r, anyRule L r = false
+  | none => rfl
+  | some (.on c) => by simp [anyRule, none_E hL c]
+  | some (.using u) => by simp [anyRule, none_E hL u]
+theorem none_J {L : Loc} (hL : L.Empty) : ∀ j, anyJ L j = false
+  | .mk _ t rule => by simp [anyJ, hL.j, none_F hL t, none_Rule hL rule]
+theorem none_Js {L : Loc} (hL : L.Empty) : ∀ js, anyJs L js = false
+  | [] => rfl
+  | j :: r => by simp [anyJs, none_J hL j, none_Js hL r]
+theorem none_Sets {L : Loc} (hL : L.Empty) : ∀ gs, anySets L gs = false
+  | [] => rfl
+  | g :: r => by simp [anySets, none_Es hL g, none_Sets hL r]
+theorem none_OSets {L : Loc} (hL : L.Empty) : ∀ gs, anyOSets L gs = false
+  | none => rfl
+  | some l => by simp [anyOSets, none_Sets hL l]
+theorem none_G {L : Loc} (hL : L.Empty) : ∀ g, anyG L g = false
+  | .mk gc sets _ _ => by simp [anyG, hL.g, none_Es hL gc, none_OSets hL sets]
+theorem none_OG {L : Loc} (hL : L.Empty) : ∀ g, anyOG L g = false
+  | none => rfl
+  | some g => by simp [anyOG, none_G hL g]
+theorem none_Lat {L : Loc} (hL : L.Empty) : ∀ l, anyLat L l = false
+  | .mk _ fn _ _ => by simp [anyLat, none_E hL fn]
+theorem none_Lats {L : Loc} (hL : L.Empty) : ∀ ls, anyLats L ls = false
+  | [] => rfl
+  | l :: r => by simp [anyLats, none_Lat hL l, none_Lats hL r]
+theorem none_WTs {L : Loc} (hL : L.Empty) : ∀ ws, anyWTs L ws = false
+  | [] => rfl
+  | .mk _ q :: r => by simp [anyWTs, none_Q hL q, none_WTs hL r]
+theorem none_W {L : Loc} (hL : L.Empty) : ∀ ws, anyW L ws = false
+  | none => rfl
+  | some ws => by simp [anyW, none_WTs hL ws]
+theorem none_Cols {L : Loc} (hL : L.Empty) : ∀ cs, anyCols L cs = false
+  | [] => rfl
+  | (e, _) :: r => by simp [anyCols, none_E hL e, none_Cols hL r]
+theorem none_S {L : Loc} (hL : L.Empty) : ∀ x, anyS L x = false
+  | .mk ws _ cols fr lats js wh gb hv ob sb db cb _ => by
+    simp [anyS, hL.s, none_W hL ws, none_Cols hL cols, none_OFs hL fr, none_Lats hL lats, none_Js hL js, none_OE hL wh, none_OG hL gb,
+      none_OE hL hv, none_OOs hL ob, none_OOs hL sb, none_OEs hL db, none_OEs hL cb]
+theorem none_Us {L : Loc} (hL : L.Empty) : ∀ us, anyUs L us = false
+  | [] => rfl
+  | (_, x) :: r => by simp [anyUs, none_S hL x, none_Us hL r]
+theorem none_Q {L : Loc} (hL : L.Empty) : ∀ q, anyQ L q = false
+  | .single x => by simp [anyQ, hL.q, none_S hL x]
+  | .union ws x us => by simp [anyQ, hL.q, none_W hL ws, none_S hL x, none_Us hL us]
+end
+
 /-! ## propagation: a locally refused node anywhere makes the whole print fail -/
 
 /-- every node flagged by `L` makes its own printer call fail under dialect `d` -/
